@@ -350,7 +350,7 @@ Definition wire_of_out (o : out) : wire :=
   | OFlag f => mk 2 [f] []
   | OErase a => mk 3 [a] []
   | OWrite a d => mk 4 [a; len d; cks d] []
-  | OVerify b sg v => mk 5 [len b; cks b; len sg; cks sg; if v then 1 else 0] []
+  | OVerify b sg v => mk 5 [len b; cks b; len sg; cks sg; if v then 1 else 0; 1] []   (* last: built-in key and exponent *)
   | OUpgradeReboot => mk 6 [] []
   | ORestart => mk 7 [] []
   | OFault => mk 8 [] []
